@@ -5,9 +5,11 @@ cd "$(dirname "$0")"
 export CARGO_NET_OFFLINE=true
 mkdir -p .build/tmp evidence replays
 python3 tools/gen_lean.py
-(cd lean && lake build Sds sdsdriver)
+(cd lean && lake build sdsdriver Sds)
 [ -f harness/Cargo.lock ] || cp /repo/Cargo.lock harness/Cargo.lock
-(cd harness && CARGO_TARGET_DIR=../.build/cargo-native RUSTFLAGS="-C target-cpu=native" cargo build --offline --profile chk) &
-(cd harness && CARGO_TARGET_DIR=../.build/cargo-portable RUSTFLAGS="" cargo build --offline --profile rel) &
+(cd harness && CARGO_TARGET_DIR=../.build/cargo-native RUSTFLAGS="-C target-cpu=native" cargo build --offline --profile chk && \
+   CARGO_TARGET_DIR=../.build/cargo-native RUSTFLAGS="-C target-cpu=native" cargo build --offline --profile rel) &
+(cd harness && CARGO_TARGET_DIR=../.build/cargo-portable RUSTFLAGS="" cargo build --offline --profile rel && \
+   CARGO_TARGET_DIR=../.build/cargo-portable RUSTFLAGS="" cargo build --offline --profile chk) &
 wait
 echo "setup: ok"
